@@ -117,6 +117,9 @@ func (w *World) operatorSwitch() *opDispatch {
 							od.Func[op] = w.Types.Scope().Lookup(strings.TrimPrefix(v.Tag, "var:"))
 						} else if v.Fn.Object() != nil {
 							od.Func[op] = v.Fn.Object()
+						} else if gn := w.globalHoldingFunc(v.Fn); gn != "" {
+							// an anonymous function that is the initial value of a package variable
+							od.Func[op] = w.Types.Scope().Lookup(gn)
 						}
 					} else {
 						od.NilFunc[op] = true
@@ -243,30 +246,29 @@ func ruleAOps(w *World, r *Report) {
 	w.checkPrimitiveCmp(r)
 }
 
-// checkCmpWrapper: fn(t, m, n) = table[type(m)][type(n)](t, OP, m, n)
-func (w *World) checkCmpWrapper(r *Report, op string, fn *ssa.Function) {
-	found := false
-	eachInstr(fn, false, func(_ *ssa.Function, in ssa.Instruction) {
+// cmpDispatch: the call of a cell of the comparison table in host, with the
+// values (in host's frame) it passes as operator string, left and right
+// operand, and the values whose types index the row and the column.
+type cmpDispatch struct {
+	call             *ssa.Call
+	host             *ssa.Function
+	opV, mV, nV      ssa.Value
+	rowArg, colArg   ssa.Value
+	sameIndexFn, idx bool
+	indexFn          *ssa.Function
+}
+
+func (w *World) cmpDispatchIn(f *ssa.Function) *cmpDispatch {
+	var out *cmpDispatch
+	eachInstr(f, false, func(_ *ssa.Function, in ssa.Instruction) {
 		c, ok := in.(*ssa.Call)
-		if !ok || c.Call.IsInvoke() || c.Call.StaticCallee() != nil || len(c.Call.Args) != 4 {
+		if !ok || c.Call.IsInvoke() || c.Call.StaticCallee() != nil || len(c.Call.Args) != 4 || out != nil {
 			return
 		}
-		found = true
-		key := "bind:" + op
-		s, _ := constString(c.Call.Args[1])
-		if s != op {
-			r.bad("A-OPS", key, w.instrPos(c), fmt.Sprintf("the function bound to %q asks the comparison table for %q", op, s))
-			return
-		}
-		if len(fn.Params) == 3 && c.Call.Args[2] == ssa.Value(fn.Params[1]) && c.Call.Args[3] == ssa.Value(fn.Params[2]) {
-			r.ok("A-OPS", key, w.instrPos(c), fn.Name()+" passes "+op+" and (m, n) in order")
-		} else {
-			r.bad("A-OPS", key, w.instrPos(c), "operands are not passed to the table cell in (left, right) order")
-		}
-		// row = type of m, column = type of n
-		idx1, ok1 := c.Call.Value.(*ssa.UnOp)
-		if ok1 {
+		d := &cmpDispatch{call: c, host: f, opV: c.Call.Args[1], mV: c.Call.Args[2], nV: c.Call.Args[3]}
+		if idx1, ok := c.Call.Value.(*ssa.UnOp); ok {
 			if ia, ok := idx1.X.(*ssa.IndexAddr); ok {
+				d.idx = true
 				col := ia.Index
 				var row ssa.Value
 				if ld, ok := ia.X.(*ssa.UnOp); ok {
@@ -274,22 +276,75 @@ func (w *World) checkCmpWrapper(r *Report, op string, fn *ssa.Function) {
 						row = ia2.Index
 					}
 				}
-				okRC := false
-				if rc, ok := row.(*ssa.Call); ok && len(rc.Call.Args) == 1 && rc.Call.Args[0] == ssa.Value(fn.Params[1]) {
-					if cc, ok := col.(*ssa.Call); ok && len(cc.Call.Args) == 1 && cc.Call.Args[0] == ssa.Value(fn.Params[2]) && cc.Call.StaticCallee() == rc.Call.StaticCallee() {
-						okRC = true
+				if rc, ok := row.(*ssa.Call); ok && len(rc.Call.Args) == 1 {
+					d.rowArg = rc.Call.Args[0]
+					if cc, ok := col.(*ssa.Call); ok && len(cc.Call.Args) == 1 {
+						d.colArg = cc.Call.Args[0]
+						d.sameIndexFn = cc.Call.StaticCallee() == rc.Call.StaticCallee() && cc.Call.StaticCallee() != nil
+						d.indexFn = rc.Call.StaticCallee()
 					}
-				}
-				if okRC {
-					r.ok("A-OPS", "index:"+op, w.instrPos(c), "row = type of the left operand, column = type of the right operand")
-				} else {
-					r.bad("A-OPS", "index:"+op, w.instrPos(c), "the comparison table is not indexed by (type of left, type of right)")
 				}
 			}
 		}
+		out = d
 	})
-	if !found {
-		r.bad("A-OPS", "bind:"+op, w.pos(fn.Pos()), fn.Name()+" does not dispatch through the comparison table")
+	return out
+}
+
+// checkCmpWrapper: fn(t, m, n) = table[type(m)][type(n)](t, OP, m, n), written
+// in fn itself or in a helper fn hands (t, OP, m, n) to.
+func (w *World) checkCmpWrapper(r *Report, op string, fn *ssa.Function) {
+	key := "bind:" + op
+	d := w.cmpDispatchIn(fn)
+	through := func(v ssa.Value) ssa.Value { return v }
+	if d == nil {
+		// a helper that does the dispatch with its own parameters
+		eachInstr(fn, false, func(_ *ssa.Function, in ssa.Instruction) {
+			c, ok := in.(*ssa.Call)
+			if !ok || d != nil {
+				return
+			}
+			h := c.Call.StaticCallee()
+			if h == nil || !w.inPkg(h) || len(h.Blocks) == 0 {
+				return
+			}
+			hd := w.cmpDispatchIn(h)
+			if hd == nil {
+				return
+			}
+			d = hd
+			site := c
+			through = func(v ssa.Value) ssa.Value {
+				for i, p := range h.Params {
+					if v == ssa.Value(p) && i < len(site.Call.Args) {
+						return site.Call.Args[i]
+					}
+				}
+				return v
+			}
+		})
+	}
+	if d == nil {
+		r.bad("A-OPS", key, w.pos(fn.Pos()), fn.Name()+" does not dispatch through the comparison table")
+		return
+	}
+	pos := w.instrPos(d.call)
+	s, _ := constString(through(d.opV))
+	if s != op {
+		r.bad("A-OPS", key, pos, fmt.Sprintf("the function bound to %q asks the comparison table for %q", op, s))
+		return
+	}
+	if len(fn.Params) == 3 && through(d.mV) == ssa.Value(fn.Params[1]) && through(d.nV) == ssa.Value(fn.Params[2]) {
+		r.ok("A-OPS", key, pos, fn.Name()+" passes "+op+" and (m, n) in order")
+	} else {
+		r.bad("A-OPS", key, pos, "operands are not passed to the table cell in (left, right) order")
+	}
+	if d.idx {
+		if len(fn.Params) == 3 && d.sameIndexFn && d.rowArg != nil && d.colArg != nil && through(d.rowArg) == ssa.Value(fn.Params[1]) && through(d.colArg) == ssa.Value(fn.Params[2]) {
+			r.ok("A-OPS", "index:"+op, pos, "row = type of the left operand, column = type of the right operand")
+		} else {
+			r.bad("A-OPS", "index:"+op, pos, "the comparison table is not indexed by (type of left, type of right)")
+		}
 	}
 }
 
@@ -457,47 +512,61 @@ func (w *World) checkPrimitiveCmp(r *Report) {
 		}
 		n++
 		r.FuncsAnalysed[fnName(fn)] = true
-		got := map[string]bool{}
-		for _, b := range fn.Blocks {
-			ret, ok := normalReturn(b)
-			if !ok {
-				continue
+		pos := w.pos(fn.Pos())
+		// followed with each operator string and symbolic operands a, b: the
+		// result is `a OP b`, operands in order — however the choice is written
+		// (a switch, a table of comparison functions)
+		run := func(op string) (string, bool) {
+			ai := w.newInterp(AHooks{})
+			outs := ai.Exec(fn, []AVal{aStr(op), {Kind: avUnknown, Tag: "a"}, {Kind: avUnknown, Tag: "b"}}, nil, w.initState())
+			if len(outs) == 0 {
+				return "not followed", false
 			}
-			// the label: b is entered by the true edge of op == "L"
-			label := ""
-			for _, p := range b.Preds {
-				if ifi := blockIf(p); ifi != nil && p.Succs[0] == b {
-					if bo, ok := ifi.Cond.(*ssa.BinOp); ok && bo.Op == token.EQL && bo.X == ssa.Value(fn.Params[0]) {
-						label, _ = constString(bo.Y)
-					}
+			for _, o := range outs {
+				if o.Cut || o.Panicked {
+					return "a path could not be followed to a result", false
 				}
 			}
-			if label == "" {
-				// default: must return false
-				if c, ok := ret.Results[0].(*ssa.Const); ok && c.Value != nil && c.Value.Kind() == constant.Bool && !constant.BoolVal(c.Value) {
+			want, known := cmpTokens[op]
+			for _, o := range outs {
+				if !known {
+					if bv, ok := o.Ret.Bool(); !ok || bv {
+						return "returns " + o.Ret.String() + " for an operator string XPath does not have", true
+					}
 					continue
 				}
-				r.bad("A-OPS", fn.Name()+":default", w.instrPos(ret), "the fall-through of the comparison primitive does not return false")
-				continue
+				e := o.Ret.Expr
+				if e == nil || e.Call != "" || e.Op != want || len(e.Args) != 2 || e.Args[0].Tag != "a" || e.Args[1].Tag != "b" {
+					return fmt.Sprintf("returns %s, not a %s b (operands in order)", o.Ret.String(), want), true
+				}
 			}
-			key := fn.Name() + ":" + label
-			want, known := cmpTokens[label]
-			bo, isB := ret.Results[0].(*ssa.BinOp)
-			if !known {
-				r.bad("A-OPS", key, w.instrPos(ret), "case for an operator string XPath does not have")
-				continue
-			}
-			got[label] = true
-			if isB && bo.Op == want && bo.X == ssa.Value(fn.Params[1]) && bo.Y == ssa.Value(fn.Params[2]) {
-				r.ok("A-OPS", key, w.instrPos(ret), fmt.Sprintf("%q => a %s b", label, want))
-			} else {
-				r.bad("A-OPS", key, w.instrPos(ret), fmt.Sprintf("%q does not return a %s b (operands in order)", label, want))
+			return "", true
+		}
+		var ops []string
+		for l := range cmpTokens {
+			ops = append(ops, l)
+		}
+		sort.Strings(ops)
+		for _, op := range ops {
+			key := fn.Name() + ":" + op
+			why, decided := run(op)
+			switch {
+			case !decided:
+				r.undec("A-OPS", key, pos, fn.Name()+"("+op+"): "+why)
+			case why != "":
+				r.bad("A-OPS", key, pos, fmt.Sprintf("%s with %q %s", fn.Name(), op, why))
+			default:
+				r.ok("A-OPS", key, pos, fmt.Sprintf("%q => a %s b", op, cmpTokens[op]))
 			}
 		}
-		for l := range cmpTokens {
-			if !got[l] {
-				r.bad("A-OPS", fn.Name()+":"+l, w.pos(fn.Pos()), fmt.Sprintf("%s has no case for %q: the comparison silently yields false", fn.Name(), l))
-			}
+		why, decided := run("no-such-operator")
+		switch {
+		case !decided:
+			r.undec("A-OPS", fn.Name()+":default", pos, fn.Name()+": "+why)
+		case why != "":
+			r.bad("A-OPS", fn.Name()+":default", pos, "the fall-through of the comparison primitive does not return false: "+why)
+		default:
+			r.ok("A-OPS", fn.Name()+":default", pos, "an operator string XPath does not have yields false")
 		}
 	}
 	if n < 2 {
@@ -598,11 +667,21 @@ func (w *World) typeIndexer() (fn *ssa.Function, idx map[string]int64, nvals int
 	if wr == nil {
 		return nil, nil, 0
 	}
-	eachInstr(wr, false, func(_ *ssa.Function, in ssa.Instruction) {
-		if c, ok := in.(*ssa.Call); ok && c.Call.StaticCallee() != nil && w.inPkg(c.Call.StaticCallee()) && len(c.Call.Args) == 1 {
-			fn = c.Call.StaticCallee()
-		}
-	})
+	// the function whose result indexes the table, in the wrapper or in the
+	// helper the wrapper hands its operands to
+	if d := w.cmpDispatchIn(wr); d != nil {
+		fn = d.indexFn
+	} else {
+		eachInstr(wr, false, func(_ *ssa.Function, in ssa.Instruction) {
+			if c, ok := in.(*ssa.Call); ok && fn == nil {
+				if h := c.Call.StaticCallee(); h != nil && w.inPkg(h) && len(h.Blocks) > 0 {
+					if d := w.cmpDispatchIn(h); d != nil {
+						fn = d.indexFn
+					}
+				}
+			}
+		})
+	}
 	if fn == nil {
 		return nil, nil, 0
 	}
@@ -1170,4 +1249,16 @@ func (w *World) residualCycleFeasible(comp []*ssa.BasicBlock, inComp, cut map[*s
 		}
 	}
 	return found
+}
+
+// globalHoldingFunc: the package-level variable (never written after
+// initialisation) whose initial value is fn.
+func (w *World) globalHoldingFunc(fn *ssa.Function) string {
+	st := w.initState()
+	for g, o := range st.globals {
+		if v, ok := st.obj(o).Fields[0]; ok && v.Kind == avFunc && v.Fn == fn && w.readOnlyGlobal(g) {
+			return g.Name()
+		}
+	}
+	return ""
 }
